@@ -140,7 +140,7 @@ func runDynRate(p DynRateParams, ops hx.Counter) []Case {
 			for _, b := range ps.Bens {
 				bens = append(bens, spendingtypes.WeightedAccount{Account: c.Accounts[b.Acc].Addr.String(), Weight: dec(b.Weight)})
 			}
-			name := fmt.Sprintf("p%d", i)
+			name := dynPoolName(i)
 			msg := spendingtypes.NewMsgCreateSpendingPool(name, 0, 0, sdk.NewDecCoins(sdk.NewDecCoinFromDec("ukex", dec("1"))), dec("0.33"), 60, 30,
 				spendingtypes.PermInfo{OwnerAccounts: []string{c.Accounts[ps.Creator].Addr.String()}},
 				spendingtypes.WeightedPermInfo{Accounts: bens}, c.Accounts[ps.Creator].Addr, ps.Dynamic, ps.Period)
@@ -153,7 +153,7 @@ func runDynRate(p DynRateParams, ops hx.Counter) []Case {
 	var sj0 interface{}
 	h.Block(BlockReq{Dt: 5, Proposer: 1}, func() {
 		for i, ps := range p.Pools {
-			name := fmt.Sprintf("p%d", i)
+			name := dynPoolName(i)
 			for _, b := range ps.Bens {
 				if b.Register {
 					res := h.Tx("register-beneficiary", b.Acc, spendingtypes.NewMsgRegisterSpendingPoolBeneficiary(name, c.Accounts[b.Acc].Addr))
@@ -175,7 +175,7 @@ func runDynRate(p DynRateParams, ops hx.Counter) []Case {
 		h.Block(BlockReq{Dt: p.Dts[b], Proposer: b}, func() {
 			if cl := p.Claims[b]; cl >= 0 {
 				a := p.Pools[cl].Bens[0].Acc
-				res := h.Tx("claim-spending-pool", a, spendingtypes.NewMsgClaimSpendingPool(fmt.Sprintf("p%d", cl), c.Accounts[a].Addr))
+				res := h.Tx("claim-spending-pool", a, spendingtypes.NewMsgClaimSpendingPool(dynPoolName(cl), c.Accounts[a].Addr))
 				log = append(log, fmt.Sprintf("a%d claims from p%d code=%d", a, cl, res.Code))
 			}
 		}, func(ctx sdk.Context) {
@@ -186,6 +186,9 @@ func runDynRate(p DynRateParams, ops hx.Counter) []Case {
 	}
 	return out
 }
+
+// names chosen for KEY-PREFIX collisions: claim infos are stored under pool name ++ account and iterated by pool name
+func dynPoolName(i int) string { return []string{"p", "p1", "p10", "p100"}[i%4] }
 
 // readSpendSite reads what the spending EndBlocker will see: every pool in store order with its
 // dynamic-rate fields, the summed weight of its registered claimers and its recorded balances.
